@@ -229,7 +229,9 @@ void cli_parser(const MainOptions& options, const std::vector<std::string>& args
         catch (bloc::RuntimeError& re)
         {
           set_color(fgRED); PRINTF("Error: %s", re.what()); reset_color();
-          ctx.purgeWorkingMemory();
+          /* the statement is executed outside any Executable::run: close the
+           * loops it left open, as the library does, and purge temporaries */
+          ctx.onRuntimeError();
           break;
         }
       }
